@@ -21,6 +21,7 @@ LEVEL_NOTE = ('Trusted: ast front-end, the interpreter, the oracle derivation (c
 EXPLANATION = ('R08.1 each entry: coefficients through e^N equal the oracle, none above N (polynomial entries); closed-form entries equal the oracle '
                'through e^26. R08.2 every omitted (p,q) has a zero oracle series through e^N. R08.3 lookup helpers / registries return exactly '
                'the table of the requested (N, l).')
+EXPLANATION += ' The registries are read with every top-level statement that binds or mutates them executed, and a who-may-write scan over all modules shows nothing else stores into them.'
 
 NSER = H.NSER
 LS = range(2, 8)
